@@ -8,7 +8,6 @@ SRC="$1"; PID="$2"; shift 2; CHECKS="${*:-$PID}"
 VERIF="$(cd "$(dirname "$0")/.." && pwd)"
 WT=/tmp/confirm_$PID.$$
 [ -f "$SRC/patch.diff" ] || { echo "no patch.diff in $SRC"; exit 2; }
-git -C /repo status --porcelain --untracked-files=no | grep -q . && { echo "/repo has uncommitted changes"; exit 2; }
 git -C /repo worktree add -q --detach "$WT" HEAD || exit 2
 trap 'git -C /repo worktree remove --force "$WT" >/dev/null 2>&1; rm -rf "$WT"' EXIT
 if ! git -C "$WT" apply --index "$SRC/patch.diff" 2>/tmp/confirm_apply.$$; then echo "RESULT apply=FAILED $(head -3 /tmp/confirm_apply.$$)"; rm -f /tmp/confirm_apply.$$; exit 1; fi
@@ -30,12 +29,14 @@ print("RESULT baseline_stable=%d failed_after_retry=%s"%(len(stable),still))
 open('/tmp/confirm_baseline.txt','w').write(','.join(still))
 EOF
 FAILED="$(cat /tmp/confirm_baseline.txt)"; rm -f /tmp/confirm_baseline.txt
-# now the checks against /repo itself
+# now the checks against /repo itself (serialised with any other user of /repo through /tmp/verif_repo.lock)
+exec 9>/tmp/verif_repo.lock; flock 9
+git -C /repo status --porcelain --untracked-files=no | grep -q . && { echo "/repo has uncommitted changes"; exit 2; }
 git -C /repo apply "$SRC/patch.diff" || { echo "RESULT repo_apply=FAILED"; exit 1; }
 for c in $CHECKS; do
   OUT="$(cd "$VERIF" && ./check $c --tier quick 2>&1)"; RC=$?
   echo "RESULT check=$c exit=$RC violations=$(echo "$OUT" | grep -c '^VIOLATION')"
   echo "$OUT" | grep -A2 '^VIOLATION' | grep 'what:' | head -2 | cut -c1-400
 done
-git -C /repo checkout -- . ; git -C /repo status --porcelain --untracked-files=no | grep -q . && echo "WARNING: /repo not clean"
+git -C /repo checkout -- . ; flock -u 9; git -C /repo status --porcelain --untracked-files=no | grep -q . && echo "WARNING: /repo not clean"
 [ -z "$FAILED" ] && echo "RESULT baseline=PASS" || echo "RESULT baseline=FAIL ($FAILED)"
